@@ -109,9 +109,10 @@ structure Inv (s : St) : Prop where
   g : G s.cur s.qs s.pend s.used s.wire
   lk : s.link ≠ .idle → s.cur = none
   pump : PI s.pump s.cur s.qs s.pend s.used s.wire s.link
+  hl : s.sendLock = true → ∀ qi ∈ s.hold, s.cur = some qi
 
-theorem inv_init (t d : Bool) : Inv { tmo := t, dropW := d } := by
-  refine ⟨⟨?_, ?_, ?_, ?_, ?_, ?_, ?_, ?_⟩, ?_, ?_⟩ <;> simp [getQ, PI]
+theorem inv_init (t d k : Bool) : Inv { tmo := t, dropW := d, sendLock := k } := by
+  refine ⟨⟨?_, ?_, ?_, ?_, ?_, ?_, ?_, ?_⟩, ?_, ?_, ?_⟩ <;> simp [getQ, PI]
 
 /-! ## the queue part under the primitive updates -/
 
@@ -521,6 +522,10 @@ theorem complete_noeff (s : St) (id qi : Nat) (h : (complete s id qi).2 = false)
 @[simp] theorem signal_link (s : St) : (signal s).link = s.link := by unfold signal; split <;> rfl
 @[simp] theorem signal_pump (s : St) : (signal s).pump = s.pump := by unfold signal; split <;> rfl
 @[simp] theorem signal_reader (s : St) : (signal s).reader = s.reader := by unfold signal; split <;> rfl
+@[simp] theorem signal_hold (s : St) : (signal s).hold = s.hold := by unfold signal; split <;> rfl
+@[simp] theorem signal_sendLock (s : St) : (signal s).sendLock = s.sendLock := by unfold signal; split <;> rfl
+@[simp] theorem cancel_hold (s : St) : (cancelCtx s).hold = s.hold := by unfold cancelCtx; split <;> rfl
+@[simp] theorem cancel_sendLock (s : St) : (cancelCtx s).sendLock = s.sendLock := by unfold cancelCtx; split <;> rfl
 @[simp] theorem cancel_cur (s : St) : (cancelCtx s).cur = s.cur := by unfold cancelCtx; split <;> rfl
 @[simp] theorem cancel_qs (s : St) : (cancelCtx s).qs = s.qs := by unfold cancelCtx; split <;> rfl
 @[simp] theorem cancel_pend (s : St) : (cancelCtx s).pend = s.pend := by unfold cancelCtx; split <;> rfl
@@ -530,20 +535,24 @@ theorem complete_noeff (s : St) (id qi : Nat) (h : (complete s id qi).2 = false)
 
 /-- a step that touches neither the queues, the pending mark, the ghost lists, the link nor the pump's program point -/
 theorem inv_same {s s' : St} (h : Inv s) (e1 : s'.cur = s.cur) (e2 : s'.qs = s.qs) (e3 : s'.pend = s.pend)
-    (e4 : s'.used = s.used) (e5 : s'.wire = s.wire) (e6 : s'.link = s.link) (e7 : s'.pump = s.pump) : Inv s' := by
-  refine ⟨?_, ?_, ?_⟩
+    (e4 : s'.used = s.used) (e5 : s'.wire = s.wire) (e6 : s'.link = s.link) (e7 : s'.pump = s.pump)
+    (e8 : s'.hold = s.hold) (e9 : s'.sendLock = s.sendLock) : Inv s' := by
+  refine ⟨?_, ?_, ?_, ?_⟩
   · rw [e1, e2, e3, e4, e5]; exact h.g
   · rw [e1, e6]; exact h.lk
   · rw [e1, e2, e3, e4, e5, e6, e7]; exact h.pump
+  · rw [e1, e8, e9]; exact h.hl
 
 /-- the pump moves to a program point about which nothing has to be known -/
 theorem inv_pc {s s' : St} (h : Inv s) (e1 : s'.cur = s.cur) (e2 : s'.qs = s.qs) (e3 : s'.pend = s.pend)
     (e4 : s'.used = s.used) (e5 : s'.wire = s.wire) (e6 : s'.link = s.link)
+    (e8 : s'.hold = s.hold) (e9 : s'.sendLock = s.sendLock)
     (hp : PI s'.pump s.cur s.qs s.pend s.used s.wire s.link) : Inv s' := by
-  refine ⟨?_, ?_, ?_⟩
+  refine ⟨?_, ?_, ?_, ?_⟩
   · rw [e1, e2, e3, e4, e5]; exact h.g
   · rw [e1, e6]; exact h.lk
   · rw [e1, e2, e3, e4, e5, e6]; exact hp
+  · rw [e1, e8, e9]; exact h.hl
 
 /-- a completion (reader or pump), where it takes effect -/
 theorem inv_complete {s : St} (h : Inv s) (id qi : Nat) (he : (complete s id qi).2 = true) (pc : Pump) (rd : Reader)
@@ -552,7 +561,7 @@ theorem inv_complete {s : St} (h : Inv s) (id qi : Nat) (he : (complete s id qi)
     Inv { (complete s id qi).1 with pump := pc, reader := rd } := by
   obtain ⟨t, hq, hc⟩ := complete_eff s id qi he
   rw [hc]
-  exact ⟨G_pop h.g id qi t hq, h.lk, hpc t hq⟩
+  exact ⟨G_pop h.g id qi t hq, h.lk, hpc t hq, h.hl⟩
 
 theorem PI_after {d w : Bool} {h : Nat} {cur qs pend used wire link}
     (hh : pend = some h → NotInCur cur qs h) : PI (afterCompletion d w h) cur qs pend used wire link := by
@@ -568,35 +577,35 @@ theorem inv_pstep {s s' : St} (h : Inv s) (hs : pumpStep s = some s') : Inv s' :
   case wr => cases hs
   case rq1 =>
     cases hs
-    refine inv_pc h rfl rfl rfl rfl rfl rfl ?_
+    refine inv_pc h rfl rfl rfl rfl rfl rfl rfl rfl ?_
     show PI (match s.cur with | none => .rqDel | some qi => .rq2 qi) _ _ _ _ _ _
     cases s.cur <;> simp [PI]
   case rqDel =>
     cases hs
-    exact inv_pc h (by simp) (by simp) (by simp) (by simp) (by simp) (by simp) (by simp [PI])
+    exact inv_pc h (by simp) (by simp) (by simp) (by simp) (by simp) (by simp) (by simp) (by simp) (by simp [PI])
   case rq2 qi =>
     cases hs
-    refine inv_pc h rfl rfl rfl rfl rfl rfl ?_
+    refine inv_pc h rfl rfl rfl rfl rfl rfl rfl rfl ?_
     dsimp only
     split
     · simp [PI]
     · simp [PI]
     · split <;> simp [PI]
   case tm1 k =>
-    split at hs <;> cases hs <;> exact inv_pc h rfl rfl rfl rfl rfl rfl (by simp [PI])
+    split at hs <;> cases hs <;> exact inv_pc h rfl rfl rfl rfl rfl rfl rfl rfl (by simp [PI])
   case tm2 =>
     cases hs
-    refine inv_pc h rfl rfl rfl rfl rfl rfl ?_
+    refine inv_pc h rfl rfl rfl rfl rfl rfl rfl rfl ?_
     dsimp only
     split <;> simp [PI]
   case tm3 =>
     cases hs
-    refine inv_pc h rfl rfl rfl rfl rfl rfl ?_
+    refine inv_pc h rfl rfl rfl rfl rfl rfl rfl rfl ?_
     show PI (match s.cur with | none => .sel | some qi => .tm4 qi) _ _ _ _ _ _
     cases hc : s.cur <;> simp [PI, Holds]
   case tm4 qi =>
     cases hs
-    refine inv_pc h rfl rfl rfl rfl rfl rfl ?_
+    refine inv_pc h rfl rfl rfl rfl rfl rfl rfl rfl ?_
     simp only [PI]
     intro p hpp i hc hx
     rcases hpi with h1 | h1 | h1
@@ -607,14 +616,14 @@ theorem inv_pstep {s s' : St} (h : Inv s) (hs : pumpStep s = some s') : Inv s' :
     cases oh with
     | none =>
       cases hs
-      refine inv_pc h rfl rfl rfl rfl rfl rfl ?_
+      refine inv_pc h rfl rfl rfl rfl rfl rfl rfl rfl ?_
       simp only [PI]
       intro p hpp i hc hx
       have := hpi p hpp i hc hx
       cases this
     | some hh =>
       cases hs
-      refine inv_pc h rfl rfl rfl rfl rfl rfl ?_
+      refine inv_pc h rfl rfl rfl rfl rfl rfl rfl rfl ?_
       dsimp only
       split
       · simp [PI]
@@ -626,15 +635,15 @@ theorem inv_pstep {s s' : St} (h : Inv s) (hs : pumpStep s = some s') : Inv s' :
         rw [hpp] at hne; simp at hne
   case tmO =>
     cases hs
-    refine ⟨G_clear h.g hpi, h.lk, ?_⟩
+    refine ⟨G_clear h.g hpi, h.lk, ?_, h.hl⟩
     dsimp only
     split <;> simp [PI]
   case tmOS =>
     cases hs
-    exact inv_pc h (by simp) (by simp) (by simp) (by simp) (by simp) (by simp) (by simp [PI])
+    exact inv_pc h (by simp) (by simp) (by simp) (by simp) (by simp) (by simp) (by simp) (by simp) (by simp [PI])
   case cp1 w hh =>
     cases hs
-    refine inv_pc h rfl rfl rfl rfl rfl rfl ?_
+    refine inv_pc h rfl rfl rfl rfl rfl rfl rfl rfl ?_
     show PI (match s.cur with | none => afterCompletion s.dropW w hh | some qi => .cp2 w hh qi) _ _ _ _ _ _
     cases hc : s.cur
     · exact PI_after (by intro _ i hci; cases hci)
@@ -656,7 +665,7 @@ theorem inv_pstep {s s' : St} (h : Inv s) (hs : pumpStep s = some s') : Inv s' :
     · have he' : (complete s hh qi).2 = false := by simpa using he
       obtain ⟨h1, h2⟩ := complete_noeff s hh qi he'
       simp only [he', Bool.false_eq_true, if_false, h1]
-      refine inv_pc h rfl rfl rfl rfl rfl rfl ?_
+      refine inv_pc h rfl rfl rfl rfl rfl rfl rfl rfl ?_
       apply PI_after
       intro hpp i hc hx
       rcases hpi with h3 | h3 | h3
@@ -666,45 +675,45 @@ theorem inv_pstep {s s' : St} (h : Inv s) (hs : pumpStep s = some s') : Inv s' :
       · exact h3 hpp
   case cp3 w hh =>
     cases hs
-    exact inv_pc h (by simp) (by simp) (by simp) (by simp) (by simp) (by simp) (PI_after (fun e => absurd e hpi))
+    exact inv_pc h (by simp) (by simp) (by simp) (by simp) (by simp) (by simp) (by simp) (by simp) (PI_after (fun e => absurd e hpi))
   case wfO hh =>
     cases hs
     by_cases e : s.pend = some hh
     · have e' : (s.pend == some hh) = true := by simpa using e
       simp only [e', if_true]
-      refine ⟨G_clear h.g (by intro p hp; rw [e] at hp; cases hp; exact hpi e), h.lk, by simp [PI]⟩
+      refine ⟨G_clear h.g (by intro p hp; rw [e] at hp; cases hp; exact hpi e), h.lk, by simp [PI], h.hl⟩
     · have e' : (s.pend == some hh) = false := by simpa using e
       simp only [e', Bool.false_eq_true, if_false]
-      exact inv_pc h rfl rfl rfl rfl rfl rfl (by simp [PI])
+      exact inv_pc h rfl rfl rfl rfl rfl rfl rfl rfl (by simp [PI])
   case wfOS hh =>
     cases hs
-    exact inv_pc h (by simp) (by simp) (by simp) (by simp) (by simp) (by simp) (by simp [PI])
+    exact inv_pc h (by simp) (by simp) (by simp) (by simp) (by simp) (by simp) (by simp) (by simp) (by simp [PI])
   case cb w hh =>
     split at hs
     · cases hs
     · cases hs
-      exact inv_pc h rfl rfl rfl rfl rfl rfl (by simp [PI])
+      exact inv_pc h rfl rfl rfl rfl rfl rfl rfl rfl (by simp [PI])
   case rd1 =>
     split at hs
     · cases hs
-      split <;> exact inv_pc h rfl rfl rfl rfl rfl rfl (by simp [PI])
+      split <;> exact inv_pc h rfl rfl rfl rfl rfl rfl rfl rfl (by simp [PI])
     · cases hs
-      exact inv_pc h rfl rfl rfl rfl rfl rfl (by simp [PI])
+      exact inv_pc h rfl rfl rfl rfl rfl rfl rfl rfl (by simp [PI])
   case rd2 =>
     cases hs
-    refine inv_pc h rfl rfl rfl rfl rfl rfl ?_
+    refine inv_pc h rfl rfl rfl rfl rfl rfl rfl rfl ?_
     show PI (match s.cur with | none => .sel | some qi => .g1 qi) _ _ _ _ _ _
     cases s.cur <;> simp [PI]
   case g1 qi =>
     cases hs
-    refine inv_pc h rfl rfl rfl rfl rfl rfl ?_
+    refine inv_pc h rfl rfl rfl rfl rfl rfl rfl rfl ?_
     dsimp only
     split
     · rename_i hn; simp only [PI]; simpa using hn
     · simp [PI]
   case g2 qi =>
     cases hs
-    refine inv_pc h rfl rfl rfl rfl rfl rfl ?_
+    refine inv_pc h rfl rfl rfl rfl rfl rfl rfl rfl ?_
     dsimp only
     split
     · simp [PI]
@@ -712,9 +721,9 @@ theorem inv_pstep {s s' : St} (h : Inv s) (hs : pumpStep s = some s') : Inv s' :
   case d1 =>
     cases hs
     split
-    · exact inv_pc h rfl rfl rfl rfl rfl rfl (by simp [PI])
+    · exact inv_pc h rfl rfl rfl rfl rfl rfl rfl rfl (by simp [PI])
     · rename_i qj hc
-      refine inv_pc h rfl rfl rfl rfl rfl rfl ?_
+      refine inv_pc h rfl rfl rfl rfl rfl rfl rfl rfl ?_
       simp only [PI]
       refine ⟨hpi, ?_⟩
       intro x hx hw
@@ -724,10 +733,10 @@ theorem inv_pstep {s s' : St} (h : Inv s) (hs : pumpStep s = some s') : Inv s' :
     cases hq : getQ s.qs qj with
     | nil =>
       simp only [hq] at hs; cases hs
-      exact inv_pc h rfl rfl rfl rfl rfl rfl (by simp [PI])
+      exact inv_pc h rfl rfl rfl rfl rfl rfl rfl rfl (by simp [PI])
     | cons a t =>
       simp only [hq] at hs; cases hs
-      refine inv_pc h rfl rfl rfl rfl rfl rfl ?_
+      refine inv_pc h rfl rfl rfl rfl rfl rfl rfl rfl ?_
       simp only [PI]
       have ha : a ∈ getQ s.qs qj := by rw [hq]; exact List.mem_cons_self
       refine ⟨hpi.1, hpi.2 a ha, h.g.sub qj a ha, ?_⟩
@@ -739,23 +748,23 @@ theorem inv_pstep {s s' : St} (h : Inv s) (hs : pumpStep s = some s') : Inv s' :
     cases hs
     have hn : s.pend.isNone = true := by rw [hpi.1]; rfl
     simp only [hn, if_true]
-    refine ⟨?_, h.lk, ?_⟩
+    refine ⟨?_, h.lk, ?_, h.hl⟩
     · have g := h.g; rw [hpi.1] at g
       exact G_addpend g hh hpi.2.2.1 hpi.2.2.2
     · simp only [PI]; exact ⟨hpi.2.1, hpi.2.2.1, Or.inl trivial⟩
   case d4 =>
     cases hs
-    split <;> exact inv_pc h rfl rfl rfl rfl rfl rfl (by simp [PI])
+    split <;> exact inv_pc h rfl rfl rfl rfl rfl rfl rfl rfl (by simp [PI])
 
 theorem inv_rstep {s s' : St} (h : Inv s) (hs : readerStep s = some s') : Inv s' := by
   unfold readerStep at hs
   cases hr : s.reader <;> simp only [hr] at hs
   case idle => cases hs
-  case got id => cases hs; exact inv_same h rfl rfl rfl rfl rfl rfl rfl
-  case lk id => cases hs; exact inv_same h rfl rfl rfl rfl rfl rfl rfl
-  case c1 id => cases hs; exact inv_same h rfl rfl rfl rfl rfl rfl rfl
-  case c3 id => cases hs; exact inv_same h (by simp) (by simp) (by simp) (by simp) (by simp) (by simp) (by simp)
-  case hd id => cases hs; exact inv_same h rfl rfl rfl rfl rfl rfl rfl
+  case got id => cases hs; exact inv_same h rfl rfl rfl rfl rfl rfl rfl rfl rfl
+  case lk id => cases hs; exact inv_same h rfl rfl rfl rfl rfl rfl rfl rfl rfl
+  case c1 id => cases hs; exact inv_same h rfl rfl rfl rfl rfl rfl rfl rfl rfl
+  case c3 id => cases hs; exact inv_same h (by simp) (by simp) (by simp) (by simp) (by simp) (by simp) (by simp) (by simp) (by simp)
+  case hd id => cases hs; exact inv_same h rfl rfl rfl rfl rfl rfl rfl rfl rfl
   case c2 id qi =>
     cases hs
     by_cases he : (complete s id qi).2 = true
@@ -767,13 +776,19 @@ theorem inv_rstep {s s' : St} (h : Inv s) (hs : readerStep s = some s') : Inv s'
     · have he' : (complete s id qi).2 = false := by simpa using he
       obtain ⟨h1, _⟩ := complete_noeff s id qi he'
       simp only [he', Bool.false_eq_true, if_false, h1]
-      exact inv_same h rfl rfl rfl rfl rfl rfl rfl
+      exact inv_same h rfl rfl rfl rfl rfl rfl rfl rfl rfl
 
 theorem inv_step {s s' : St} (h : Inv s) (l : Label) (hs : step s l = some s') : Inv s' := by
   cases l <;> simp only [step] at hs
   case sget =>
     split at hs
-    · cases hs; exact inv_same h rfl rfl rfl rfl rfl rfl rfl
+    · rename_i qi hc
+      cases hs
+      refine ⟨h.g, h.lk, h.pump, ?_⟩
+      intro hk q hq
+      rcases List.mem_cons.mp hq with e | e
+      · rw [e]; exact hc
+      · exact h.hl hk q e
     · cases hs
   case push id qi =>
     split at hs
@@ -782,32 +797,32 @@ theorem inv_step {s s' : St} (h : Inv s) (l : Label) (hs : step s l = some s') :
       cases hs
       have hid : id ∉ s.used := by
         intro hm; apply hc; simp [hm]
-      exact ⟨G_push h.g id qi hid, h.lk, PI_push h.g h.pump id qi hid⟩
+      exact ⟨G_push h.g id qi hid, h.lk, PI_push h.g h.pump id qi hid, fun hk q hq => h.hl hk q (List.mem_of_mem_erase hq)⟩
   case notify =>
     split at hs
-    · cases hs; exact inv_same h rfl rfl rfl rfl rfl rfl rfl
+    · cases hs; exact inv_same h rfl rfl rfl rfl rfl rfl rfl rfl rfl
     · cases hs
   case takeReq =>
     split at hs
-    · cases hs; exact inv_pc h rfl rfl rfl rfl rfl rfl (by simp [PI])
+    · cases hs; exact inv_pc h rfl rfl rfl rfl rfl rfl rfl rfl (by simp [PI])
     · cases hs
   case takeTimer =>
     split at hs
     · split at hs
-      · cases hs; exact inv_pc h rfl rfl rfl rfl rfl rfl (by simp [PI])
+      · cases hs; exact inv_pc h rfl rfl rfl rfl rfl rfl rfl rfl (by simp [PI])
       · cases hs
     · cases hs
   case takeReady =>
     split at hs
-    · cases hs; exact inv_pc h rfl rfl rfl rfl rfl rfl (by simp [PI])
+    · cases hs; exact inv_pc h rfl rfl rfl rfl rfl rfl rfl rfl (by simp [PI])
     · cases hs
   case takeOther =>
     split at hs
-    · cases hs; exact inv_same h rfl rfl rfl rfl rfl rfl rfl
+    · cases hs; exact inv_same h rfl rfl rfl rfl rfl rfl rfl rfl rfl
     · cases hs
   case otherReady =>
     split at hs
-    · cases hs; exact inv_same h rfl rfl rfl rfl rfl rfl rfl
+    · cases hs; exact inv_same h rfl rfl rfl rfl rfl rfl rfl rfl rfl
     · cases hs
   case pstep => exact inv_pstep h hs
   case writeOk =>
@@ -816,35 +831,42 @@ theorem inv_step {s s' : St} (h : Inv s) (l : Label) (hs : step s l = some s') :
     · rename_i hh hp
       cases hs
       rw [hp] at hpi; simp only [PI] at hpi
-      refine ⟨G_write h.g hh hpi.1 hpi.2.1 ?_, h.lk, by simp [PI]⟩
+      refine ⟨G_write h.g hh hpi.1 hpi.2.1 ?_, h.lk, by simp [PI], h.hl⟩
       rcases hpi.2.2 with h2 | h2
       · exact Or.inl h2
       · exact Or.inr h2.2
     · cases hs
   case writeFail =>
     split at hs
-    · cases hs; exact inv_pc h rfl rfl rfl rfl rfl rfl (by simp [PI])
+    · cases hs; exact inv_pc h rfl rfl rfl rfl rfl rfl rfl rfl (by simp [PI])
     · cases hs
   case fire k =>
     split at hs
-    · cases hs; exact inv_same h rfl rfl rfl rfl rfl rfl rfl
+    · cases hs; exact inv_same h rfl rfl rfl rfl rfl rfl rfl rfl rfl
     · cases hs
   case sigPost =>
     split at hs
-    · cases hs; exact inv_same h rfl rfl rfl rfl rfl rfl rfl
+    · cases hs; exact inv_same h rfl rfl rfl rfl rfl rfl rfl rfl rfl
     · cases hs
   case reply id =>
     split at hs
-    · cases hs; exact inv_same h rfl rfl rfl rfl rfl rfl rfl
+    · cases hs; exact inv_same h rfl rfl rfl rfl rfl rfl rfl rfl rfl
     · cases hs
   case rstep => exact inv_rstep h hs
   case disc =>
     split at hs
     · rename_i hc
       cases hs
-      have hl : s.link = .idle := by simp at hc; exact hc.1
+      have hl : s.link = .idle := by simp at hc; exact hc.1.1
       have hpi := h.pump; rw [hl] at hpi
-      exact ⟨G_disc h.g, fun _ => rfl, PI_disc hpi⟩
+      refine ⟨G_disc h.g, fun _ => rfl, PI_disc hpi, ?_⟩
+      intro hk q hq
+      have : s.hold = [] := by
+        have := hc
+        simp [show s.sendLock = true from hk] at this
+        exact this.2
+      change q ∈ s.hold at hq
+      rw [this] at hq; cases hq
     · cases hs
   case lstep =>
     have hpi := h.pump
@@ -854,7 +876,7 @@ theorem inv_step {s s' : St} (h : Inv s) (l : Label) (hs : step s l = some s') :
       cases hs
       have hc : s.cur = none := h.lk (by rw [hl]; simp)
       rw [hl, hc] at hpi
-      refine ⟨?_, fun _ => hc, ?_⟩
+      refine ⟨?_, fun _ => hc, ?_, h.hl⟩
       · exact h.g
       · show PI s.pump s.cur s.qs s.pend s.used s.wire .dl3
         rw [hc]; exact PI_dl2 hpi
@@ -862,7 +884,7 @@ theorem inv_step {s s' : St} (h : Inv s) (l : Label) (hs : step s l = some s') :
       cases hs
       have hc : s.cur = none := h.lk (by rw [hl]; simp)
       rw [hc] at hpi
-      refine ⟨?_, fun hn => absurd rfl hn, ?_⟩
+      refine ⟨?_, fun hn => absurd rfl hn, ?_, h.hl⟩
       · have g := h.g; rw [hc] at g
         show G s.cur s.qs none s.used s.wire
         rw [hc]; exact G_clear g (fun p _ i hi => by cases hi)
@@ -876,15 +898,18 @@ theorem inv_step {s s' : St} (h : Inv s) (l : Label) (hs : step s l = some s') :
       have hcn : s.cur = none := by simp at hc; exact hc.2
       have hpi := h.pump; rw [hl, hcn] at hpi
       have g := h.g; rw [hcn] at g
-      refine ⟨G_connect g, fun hn => absurd hl hn, ?_⟩
-      show PI s.pump (some s.qs.length) (s.qs ++ [[]]) s.pend s.used s.wire s.link
-      rw [hl]; exact PI_connect hpi
+      refine ⟨G_connect g, fun hn => absurd hl hn, ?_, ?_⟩
+      · show PI s.pump (some s.qs.length) (s.qs ++ [[]]) s.pend s.used s.wire s.link
+        rw [hl]; exact PI_connect hpi
+      · intro hk q hq
+        have := h.hl hk q hq
+        rw [hcn] at this; cases this
     · cases hs
 
 /-- the invariant holds after every label sequence: every interleaving of pump, reader, senders, link, time-out and
     signal goroutines and the other clients' use of the ready slot -/
-theorem inv_run (t d : Bool) (ls : List Label) (s : St) (h : runL { tmo := t, dropW := d } ls = some s) : Inv s := by
-  suffices ∀ (s0 : St), Inv s0 → ∀ ls s, runL s0 ls = some s → Inv s from this _ (inv_init t d) ls s h
+theorem inv_run (t d k : Bool) (ls : List Label) (s : St) (h : runL { tmo := t, dropW := d, sendLock := k } ls = some s) : Inv s := by
+  suffices ∀ (s0 : St), Inv s0 → ∀ ls s, runL s0 ls = some s → Inv s from this _ (inv_init t d k) ls s h
   intro s0 h0 ls
   induction ls generalizing s0 with
   | nil => intro s h; simp [runL] at h; subst h; exact h0
@@ -898,10 +923,10 @@ theorem inv_run (t d : Bool) (ls : List Label) (s : St) (h : runL { tmo := t, dr
 /-! ## the properties -/
 
 /-- reachable by some interleaving, with or without a configured request timeout -/
-def Reach (s : St) : Prop := ∃ t d ls, runL { tmo := t, dropW := d } ls = some s
+def Reach (s : St) : Prop := ∃ t d k ls, runL { tmo := t, dropW := d, sendLock := k } ls = some s
 
 theorem reach_inv {s : St} (h : Reach s) : Inv s := by
-  obtain ⟨t, d, ls, h⟩ := h; exact inv_run t d ls s h
+  obtain ⟨t, d, k, ls, h⟩ := h; exact inv_run t d k ls s h
 
 /-- C02: no CALL is written twice -/
 theorem written_once {s : St} (h : Reach s) : s.wire.Nodup := (reach_inv h).g.wnd
@@ -944,6 +969,32 @@ theorem dropped_is_orphan {s : St} (h : Reach s) :
 /-- every queued id was pushed once, queue objects are disjoint (a request lives in the queue object it was pushed to) -/
 theorem queues_disjoint {s : St} (h : Reach s) (i j x : Nat) (hij : i ≠ j) (hx : x ∈ getQ s.qs i) : x ∉ getQ s.qs j :=
   (reach_inv h).g.dj i j hij x hx
+
+/-- C01/C11 (since /repo 602795e): with the send lock a sender only ever pushes into the queue that is registered for the
+    client at that moment - a request is never accepted into the queue of a connection that is gone -/
+theorem pushed_into_current {s s' : St} (h : Reach s) (hk : s.sendLock = true) (id qi : Nat)
+    (hs : step s (.push id qi) = some s') : s.cur = some qi := by
+  simp only [step] at hs
+  split at hs
+  · cases hs
+  · rename_i hc
+    have : qi ∈ s.hold := by
+      apply Classical.byContradiction; intro hn
+      apply hc; simp [hn]
+    exact (reach_inv h).hl hk qi this
+
+/-- before 602795e: a sender that fetched the queue, then lost the race against a disconnection and a reconnection, pushed
+    its request into the queue object of the old connection: accepted, never written - the pump serves every wake-up and
+    parks with the request still sitting in a queue nobody looks at (open finding `never-concluded:server` until then;
+    replay on the code: `bin/harness sched "s-reconnect|queue.Push<|1"`) -/
+theorem old_push_into_old_queue :
+    ((runL { sendLock := false } [.connect, .sget, .disc, .lstep, .lstep, .connect, .push 1 0, .notify,
+        .takeReq, .pstep, .pstep, .pstep, .pstep, .takeReq, .pstep, .pstep, .pstep, .pstep]).map (fun s =>
+      decide (s.pump = .sel ∧ s.cur = some 1 ∧ getQ s.qs 0 = [1] ∧ getQ s.qs 1 = [] ∧ s.wire = [] ∧ s.pend = none ∧ s.reqs = 0 ∧
+        s.mid = 0 ∧ s.hold = [] ∧ s.ready = .empty ∧ s.sigw = 0 ∧ s.reader = .idle ∧ s.link = .idle))) = some true := by decide
+
+/-- with the lock the disconnection waits for the sender -/
+example : runL {} [.connect, .sget, .disc] = none := by decide
 
 /-! ### C07: who can wait for whom (no invariant needed: true in every state) -/
 
@@ -1013,6 +1064,6 @@ theorem old_orphan_stays_pending :
 
 /-- a reachable state inside `Write` (hypotheses of `write_only_own_pending` are satisfiable) -/
 example : ∃ s, Reach s ∧ s.pump = .wr 1 :=
-  ⟨_, ⟨true, true, [.connect, .sget, .push 1 0, .notify, .takeReq, .pstep, .pstep, .pstep, .pstep, .pstep, .pstep, .pstep], rfl⟩, by decide⟩
+  ⟨_, ⟨true, true, true, [.connect, .sget, .push 1 0, .notify, .takeReq, .pstep, .pstep, .pstep, .pstep, .pstep, .pstep, .pstep], rfl⟩, by decide⟩
 
 end SFine
